@@ -896,7 +896,8 @@ package parser
 //@ func (p *Parser) parseBooleanExpression
 //@   include ParseFrame
 // C02: negation flips the operator of the parsed leaf in place; the leaf itself (operand, value, raw-value marker, preamble) is what is returned
-//@   exit [C02:leaf-kept] (result2 == nil && single && old(p.peekToken.Type) != token.LPAREN && !(old(p.peekToken.Type) == token.NOT && old(p.peek2Token.Type) == token.LPAREN)) ==> (typeis(result0, ast.OperatorExpression) && as(result0, ast.OperatorExpression) == leaf)
+//@   exit [C02:leaf-kept] (result2 == nil && single && old(p.peekToken.Type) != token.LPAREN && !(old(p.peekToken.Type) == token.NOT && old(p.peek2Token.Type) == token.LPAREN)) ==> (typeis(result0, ast.OperatorExpression) && as(result0, ast.OperatorExpression) == lastresult(parseLeafBooleanExpression, 0))
+//@   exit [C02:leaf-left] (result2 == nil && !single && old(p.peekToken.Type) != token.LPAREN && !(old(p.peekToken.Type) == token.NOT && old(p.peek2Token.Type) == token.LPAREN)) ==> lastarg(parseRightSideExpression, 1) == lastresult(parseLeafBooleanExpression, 0)
 //@   ensures [C06:slot] result2 == nil ==> (ImpOK(result1) && (result1 == nil || fresh(result1)))
 //@   modifies holes
 //@   modifies nstmt
